@@ -165,7 +165,7 @@ class Pool:
 # ---------------------------------------------------------------------------------------- native replay
 def native_driver(sanitize=True):
     """replay driver (pool.cpp with -DPOOL_MAIN + the library sources), built under ASan/UBSan; objects compiled in parallel"""
-    with build._Lock('pooldrv'):
+    with build._Lock('pooldrv.' + build.repo_hash()):
         os.makedirs(build.BUILD, exist_ok=True)
         src = os.path.join(build.VERIF, 'harness', 'pool.cpp')
         key = build.file_hash(src, extra=build.repo_hash() + str(sanitize))
